@@ -458,3 +458,151 @@ def r_rem_euclid_shortcut(rule, root=None):
         rule.bad("rem_euclid|overflow", "Interval::rem_euclid takes its same-period shortcut under `%s`, which holds for quotients (%s, %s): when |x| / m overflows the quotients carry no period information, and the shortcut returns two unrelated remainders instead of [0, m]" % (A.unparse(target["cond"])[:80], bad[0], bad[1]), A.where(IV, target))
     else:
         rule.ok("Interval::rem_euclid refuses its same-period shortcut for infinite or NaN quotients", file=IV, line=target["ln"])
+
+
+# ---------------------------------------------------------------------------------------------------------------
+# the interval choice functions, decided on a grid of bounds under f32 semantics
+
+
+def _f32(x):
+    import struct as _st
+
+    if isinstance(x, bool) or x != x or x in (float("inf"), float("-inf")):
+        return x
+    try:
+        return _st.unpack("<f", _st.pack("<f", x))[0]
+    except OverflowError:
+        return float("inf") if x > 0 else float("-inf")
+
+
+def _ival_eval(e, env):
+    """f32 / bool value of an expression over `self` and `rhs` intervals given as env["self"] = (lo, hi) etc."""
+    e = A.strip(e)
+    k = e.get("k")
+    if k == "Lit":
+        return _f32(float(str(e.get("v")).replace("_", "").replace("f32", "")))
+    if k == "Unary":
+        v = _ival_eval(e["e"], env)
+        return (not v) if e.get("op") == "!" else (-v if e.get("op") == "-" else v)
+    if k == "Field":
+        base = A.ident(A.strip(e["e"]))
+        if base in env and e["member"] in ("lower", "upper"):
+            return env[base][0 if e["member"] == "lower" else 1]
+        raise KeyError(A.unparse(e))
+    if k == "MethodCall":
+        m = e["method"]
+        base = A.ident(A.strip(e["recv"]))
+        if base in env and isinstance(env[base], tuple):
+            lo, hi = env[base]
+            if m in ("lower", "upper") and not e["args"]:
+                return lo if m == "lower" else hi
+            if m == "has_nan":
+                return lo != lo or hi != hi
+            if m == "contains" and len(e["args"]) == 1:
+                v = _ival_eval(e["args"][0], env)
+                return v >= lo and v <= hi
+            raise KeyError(m)
+        v = _ival_eval(e["recv"], env)
+        if m == "is_nan":
+            return v != v
+        if m in ("min", "max") and len(e["args"]) == 1:
+            w = _ival_eval(e["args"][0], env)
+            if v != v:
+                return w
+            if w != w:
+                return v
+            return min(v, w) if m == "min" else max(v, w)
+        if m == "abs":
+            return abs(v)
+        raise KeyError(m)
+    if k == "Binary":
+        op = e["op"]
+        if op == "&&":
+            return bool(_ival_eval(e["left"], env)) and bool(_ival_eval(e["right"], env))
+        if op == "||":
+            return bool(_ival_eval(e["left"], env)) or bool(_ival_eval(e["right"], env))
+        a, b = _ival_eval(e["left"], env), _ival_eval(e["right"], env)
+        if op in ("==", "!=", "<", ">", "<=", ">="):
+            return {"==": a == b, "!=": a != b, "<": a < b, ">": a > b, "<=": a <= b, ">=": a >= b}[op]
+        if op in ("+", "-", "*", "/"):
+            try:
+                r = {"+": lambda: a + b, "-": lambda: a - b, "*": lambda: a * b, "/": lambda: a / b}[op]()
+            except ZeroDivisionError:
+                r = float("nan") if a == 0 or a != a else (float("inf") if (a > 0) == (str(b)[0] != "-") else float("-inf"))
+            return _f32(r)
+        raise KeyError(op)
+    if k == "Path":
+        n = A.ident(e)
+        if n in env and not isinstance(env[n], tuple):
+            return env[n]
+        raise KeyError(n)
+    raise KeyError(k)
+
+
+def _decide(fn, env):
+    """the Choice a choice function answers for these operands: the first satisfied branch, in statement order, of the
+    if-chains whose branches name a `Choice::` -> 'Left' / 'Right' / 'Both' (KeyError: outside the subset)"""
+    def chain(n):
+        # -> variant name, or None when no branch of this chain is taken
+        while n is not None and A.strip(n).get("k") == "If":
+            n = A.strip(n)
+            if _ival_eval(n["cond"], env):
+                m = re.findall(r"Choice::(\w+)", A.unparse(n["then"]))
+                inner = [x for x in A.stmts_of(n["then"]) if A.strip(x.get("e", x) if x.get("k") == "ExprStmt" else x).get("k") == "If"]
+                if inner and not m[:1]:
+                    return chain(A.strip(inner[0].get("e", inner[0])))
+                return m[0] if m else None
+            n = n.get("else")
+        if n is not None:
+            m = re.findall(r"Choice::(\w+)", A.unparse(n))
+            return m[0] if m else None
+        return None
+
+    for st in A.stmts_of(fn["body"]):
+        e = st.get("e", st) if st.get("k") == "ExprStmt" else (st.get("init") if st.get("k") == "Let" else st)
+        if e is None:
+            continue
+        e = A.strip(e)
+        if e.get("k") == "If" and "Choice::" in A.unparse(e):
+            r = chain(e)
+            if r is not None:
+                return r
+    return None
+
+
+def r_choice_decisions(rule, root=None):
+    """`Interval::{min,max,and,or}_choice` decide Left / Right exactly when the operands' bounds say so, for every
+    magnitude of the bounds: the functions are evaluated (f32 arithmetic, IEEE comparisons) on a grid of bounds that
+    includes tiny, huge, zero, negative-zero and infinite values - a test rewritten as a product of bounds is equal on
+    paper and underflows to zero for a box well clear of zero"""
+    vals = [float("-inf"), -1e30, -1.0, -1e-30, -0.0, 0.0, 1e-30, 1.0, 1e30, float("inf")]
+    ivs = [(a, b) for a in vals for b in vals if a <= b]
+    want = {
+        "min_choice": lambda a, b: "Left" if a[1] < b[0] else ("Right" if b[1] < a[0] else "Both"),
+        "max_choice": lambda a, b: "Left" if a[0] > b[1] else ("Right" if b[0] > a[1] else "Both"),
+        "and_choice": lambda a, b: "Left" if (a[0] == 0 and a[1] == 0) else ("Right" if not (a[0] <= 0 <= a[1]) else "Both"),
+        "or_choice": lambda a, b: "Left" if not (a[0] <= 0 <= a[1]) else ("Right" if (a[0] == 0 and a[1] == 0) else "Both"),
+    }
+    for name, w in want.items():
+        fn = A.find_fn(IV, name, self_ty="Interval", root=root)
+        params = [A.binding_name(i_["pat"]) for i_ in fn["sig"]["inputs"] if isinstance(i_, dict) and "pat" in i_]
+        rn = params[0] if params else "rhs"
+        bad = None
+        n = 0
+        try:
+            for a in ivs:
+                for b in ivs[::3]:
+                    got = _decide(fn, {"self": a, rn: b})
+                    n += 1
+                    if got != w(a, b):
+                        bad = (a, b, got, w(a, b))
+                        break
+                if bad:
+                    break
+        except KeyError as ex:
+            rule.skip("Interval::%s" % name, "its decision uses `%s`, outside the evaluated subset" % ex, count=True)
+            continue
+        if bad:
+            rule.bad("choice|%s" % name, "Interval::%s answers %s for lhs = [%s, %s], rhs = [%s, %s]; the bounds imply %s (the native clauses and the documented meaning decide on the bounds themselves)" % (name, bad[2], bad[0][0], bad[0][1], bad[1][0], bad[1][1], bad[3]), A.where(IV, fn))
+        else:
+            rule.ok("Interval::%s decides as its operands' bounds imply on %d operand pairs (tiny, huge, zero and infinite bounds included)" % (name, n), file=IV, line=fn["ln"])
